@@ -41,7 +41,7 @@ ASSUMPTIONS = [
     "bounds: respondent 5.1 + 10 + 3 + 3 s, supplicant 10 + 5.1 + 10 + 10 s (the stated waits plus the binding QoS send timeout), +1 s slack",
     "'all frames eventually delivered' for clause (1) = no phase lost to the peer and no delay of 2.5 s or more",
 ]
-REQUIRED = {"afterwards.checked.at_once": 20, "attempts.cancelled_by_caller": 10, "solo.attempts": 12, "solo.succeeded": 6, "attempts": 40, "attempts.clean_expected": 10, "attempts.faulted": 20, "retries": 30, "both_succeeded": 10}
+REQUIRED = {"api.attempts": 40, "api.both_succeeded": 20, "afterwards.checked.at_once": 20, "attempts.cancelled_by_caller": 10, "solo.attempts": 12, "solo.succeeded": 6, "attempts": 40, "attempts.clean_expected": 10, "attempts.faulted": 20, "retries": 30, "both_succeeded": 10}
 
 FLOWS: list[dict[str, Any]] = [
     {
@@ -491,15 +491,105 @@ async def solo_episode(loop: vloop.VirtualLoop, ctx, trial: int) -> None:
     air.close()
 
 
+API_FLOWS: list[dict[str, Any]] = [
+    {"name": "api DHW->CTL", "resp": {"01:145038": {"class": "CTL"}}, "supp": {"07:045960": {"class": "DHW", "faked": True}}, "accept": ["10A0"], "idx": "00"},
+    {"name": "api RND->CTL (zone 01)", "resp": {"01:220768": {"class": "CTL"}}, "supp": {"34:259472": {"class": "RND", "faked": True}}, "accept": ["2309"], "idx": "01"},
+    {"name": "api RND->CTL (zone 00)", "resp": {"01:220768": {"class": "CTL"}}, "supp": {"34:259472": {"class": "RND", "faked": True}}, "accept": ["2309"], "idx": "00"},
+    {"name": "api CO2->FAN", "resp": {"18:126620": {"class": "FAN", "scheme": "itho"}}, "supp": {"37:154011": {"class": "CO2", "scheme": "itho", "faked": True}}, "accept": ["31D9", "31DA"], "idx": "00"},
+    {"name": "api REM->FAN(nuaire)", "resp": {"30:098165": {"class": "FAN", "scheme": "nuaire"}}, "supp": {"32:208628": {"class": "REM", "scheme": "nuaire", "faked": True}}, "accept": ["31DA"], "idx": "21"},
+    {"name": "api REM->FAN(orcon)", "resp": {"32:155617": {"class": "FAN", "scheme": "orcon"}}, "supp": {"29:158183": {"class": "REM", "scheme": "orcon", "faked": True}}, "accept": ["31D9", "31DA"], "idx": "00"},
+]
+
+
+async def api_episode(loop: vloop.VirtualLoop, ctx, trial: int) -> None:
+    """The supplicant's *public* entry point, initiate_binding_process(), which chooses the code list itself
+    (one bare code for a DHW sensor or a Nuaire remote, a tuple for the others), against a faked respondent;
+    frames repeated like RF devices do; then a second attempt."""
+    from ramses_rf import exceptions as rexc
+
+    rng = random.Random(f"C20api/{ctx.seed}/{trial}")
+    flow = API_FLOWS[trial % len(API_FLOWS)]
+    script = Script()
+    if rng.random() < 0.6:
+        for ph in PHASES[:3]:
+            if rng.random() < 0.5:
+                script.plan[ph] = {"kind": "copies", "n": rng.choice((2, 3)), "gap": rng.choice((0.0, 0.02, 0.1))}
+    air = airmod.Air(loop, fault=script)
+    cfg = {"disable_discovery": True, "disable_qos": False, "enforce_known_list": True}
+    known = {**flow["resp"], **flow["supp"]}
+    gwy_r = await harness.start_port_gateway(loop, air, "18:111111", config=dict(cfg), known_list={k: dict(v) for k, v in known.items()}, orphans_hvac=list(flow["resp"]))
+    gwy_s = await harness.start_port_gateway(loop, air, "18:222222", config=dict(cfg), known_list={k: dict(v) for k, v in known.items()}, orphans_hvac=list(flow["supp"]))
+    await asyncio.sleep(0.3)
+    resp = gwy_r.device_by_id.get(list(flow["resp"])[0]) or gwy_r.get_device(list(flow["resp"])[0])
+    supp = gwy_s.device_by_id.get(list(flow["supp"])[0]) or gwy_s.get_device(list(flow["supp"])[0])
+    ensure_fakeable(resp)
+    ensure_fakeable(supp)
+    meta = {"seed": ctx.seed, "trial": trial, "api": True, "flow": flow["name"], "script": {k: dict(v) for k, v in script.plan.items()}}
+    n_unhandled = len(loop.unhandled)
+    for round_ in ("attempt", "retry"):
+        out: dict[str, Any] = {}
+
+        async def side(name: str, coro) -> None:
+            t0 = loop.time()
+            try:
+                res = await asyncio.wait_for(coro, timeout=90)
+                out[name] = {"outcome": "tuple", "pkts": [str(p) if p is not None else None for p in res]}
+            except rexc.BindingError as err:
+                out[name] = {"outcome": "binding-error", "error": type(err).__name__, "text": str(err)[:160]}
+            except asyncio.TimeoutError:
+                out[name] = {"outcome": "open"}
+            except Exception as err:  # noqa: BLE001
+                out[name] = {"outcome": "other-exception", "error": type(err).__name__, "where": innermost_lib_frame(err), "text": str(err)[:160]}
+            out[name]["took"] = loop.time() - t0
+
+        r_task = asyncio.ensure_future(side("respondent", resp._wait_for_binding_request(flow["accept"], idx=flow["idx"])))
+        await asyncio.sleep(rng.choice((0.0, 0.05, 0.5)))
+        s_task = asyncio.ensure_future(side("supplicant", supp.initiate_binding_process()))
+        await asyncio.wait([r_task, s_task])
+        await asyncio.sleep(rng.choice((0.0, 6.0)))
+        await vloop.drain(loop, 6)
+        ctx.count("api.attempts")
+        r, sres = out["respondent"], out["supplicant"]
+        if r["outcome"] == "tuple" and sres["outcome"] == "tuple":
+            ctx.count("api.both_succeeded")
+            if r["pkts"][:3] != sres["pkts"][:3]:
+                ctx.violate(f"C20|api|{round_}|both-succeeded-with-different-packets", "both ends report success but not with the same offer / accept / confirm packets", {"respondent": r["pkts"], "supplicant": sres["pkts"], "episode": meta})
+        elif flow["name"].startswith("api RND->CTL") and flow["idx"] not in ("00", "21") and "Payload doesn't match" in sres.get("text", ""):
+            # recorded finding: Thermostat.initiate_binding_process() passes no confirm code, so its Confirm is the
+            # bare zone index of the Accept - a frame the library's own decoder rejects unless the zone is 00
+            ctx.violate(
+                "C20|api|thermostat-confirm-is-a-bare-zone-idx",
+                "a thermostat bound through its public initiate_binding_process() to a controller zone other than 00 builds a Confirm ('1FC9 001 <idx>') that the library's own decoder rejects: the binding fails on both ends",
+                {"respondent": r, "supplicant": sres, "episode": meta},
+            )
+        else:
+            ctx.violate(
+                f"C20|api|{round_}|failed-on-a-clean-air|resp={r['outcome']}:{r.get('error', '')}|supp={sres['outcome']}:{sres.get('error', '')}",
+                "with every frame delivered (repeats only), a binding started through the device's public initiate_binding_process() did not succeed on both ends",
+                {"respondent": r, "supplicant": sres, "episode": meta},
+            )
+        for dev, name in ((resp, "respondent"), (supp, "supplicant")):
+            if dev._bind_context.is_binding:
+                ctx.violate(f"C20|api|{round_}|{name}-still-binding", "after the attempt had ended the device was still binding", {"state": repr(dev._bind_context.state), "episode": meta})
+    for u in loop.unhandled[n_unhandled:]:
+        if "binding_fsm" in (u.get("where") or "") or u.get("type") == "InvalidStateError":
+            ctx.violate(f"C20|unhandled|loop|{u['type']}|{u['where']}", "a binding callback raised inside the event loop (unhandled)", {"exception": u, "episode": meta})
+    ctx.ev()
+    ctx.seen(f"{flow['name']}|{'+'.join(sorted(script.plan)) or 'clean'}")
+    await harness.stop_gateway(gwy_r)
+    await harness.stop_gateway(gwy_s)
+    air.close()
+
+
 def run(ctx) -> None:
     n = 60 if ctx.quick else 1200
-    jobs = [("pair", ctx.shard + k * ctx.nshards) for k in range(n)] + [("solo", ctx.shard + k * ctx.nshards) for k in range(n // 4)]
+    jobs = [("pair", ctx.shard + k * ctx.nshards) for k in range(n)] + [("solo", ctx.shard + k * ctx.nshards) for k in range(n // 4)] + [("api", ctx.shard + k * ctx.nshards) for k in range(n // 10)]
     for kind, trial in jobs:
         harness.reset_transport_globals()
 
         async def go(loop, kind=kind, trial=trial):
             with clocks_patched():
-                await (episode if kind == "pair" else solo_episode)(loop, ctx, trial)
+                await {"pair": episode, "solo": solo_episode, "api": api_episode}[kind](loop, ctx, trial)
 
         try:
             vloop.run(go)
@@ -521,7 +611,7 @@ def replay(data: dict[str, Any]) -> int:
 
         async def go(loop, ep=ep, ctx=ctx):
             with clocks_patched():
-                await (solo_episode if "solo" in ep else episode)(loop, ctx, ep["trial"])
+                await (solo_episode if "solo" in ep else api_episode if ep.get("api") else episode)(loop, ctx, ep["trial"])
 
         vloop.run(go)
         for k, v in ctx.violations.items():
